@@ -218,6 +218,15 @@ def order_key() -> str:
                 and _names(n.args[0].func) == 'set' and len(n.args[0].args) == 1 and isinstance(n.args[0].args[0], ast.Call)
                 and _names(n.args[0].args[0].func) == 'parse_list')
 
+    def dotted(n):
+        return n.id if isinstance(n, ast.Name) else (f'{dotted(n.value)}.{n.attr}' if isinstance(n, ast.Attribute) else None)
+
+    def is_dedup_parsed(n):            # return list(dict.fromkeys(map(MutatorConfig.parse, ...))): duplicates removed after parsing too
+        return (isinstance(n, ast.Return) and isinstance(n.value, ast.Call) and dotted(n.value.func) == 'list' and len(n.value.args) == 1
+                and isinstance(n.value.args[0], ast.Call) and dotted(n.value.args[0].func) == 'dict.fromkeys' and len(n.value.args[0].args) == 1
+                and isinstance(n.value.args[0].args[0], ast.Call) and dotted(n.value.args[0].args[0].func) == 'map'
+                and len(n.value.args[0].args[0].args) == 2 and dotted(n.value.args[0].args[0].args[0]) == 'MutatorConfig.parse')
+
     def is_sorted_sgrna(n):            # sorted(self.sgrna_ids)
         return (isinstance(n, ast.Call) and _names(n.func) == 'sorted' and len(n.args) == 1 and not n.keywords
                 and isinstance(n.args[0], ast.Attribute) and n.args[0].attr == 'sgrna_ids')
@@ -245,6 +254,7 @@ def order_key() -> str:
             f'Definition sgrna_concat_order : list string := {sl(gc_order)}.\n'
             f'Definition sgrna_concat_grouped : bool := {b(gc_group)}.\n'
             f"Definition parse_mutators_sorted_set : bool := {b(has_call('loaders/base_targeton_config.py', 'parse_mutators', is_sorted_set_parse_list))}.\n"
+            f"Definition parse_mutators_dedups_parsed : bool := {b(has_call('loaders/base_targeton_config.py', 'parse_mutators', is_dedup_parsed))}.\n"
             f"Definition parse_list_strips : bool := {b(has_call('loaders/utils.py', 'parse_list', is_parse_list_strip))}.\n"
             f"Definition targeton_name_sorted_ids : bool := {b(has_call('loaders/targeton_config.py', 'name', is_sorted_sgrna))}.\n"
             f"Definition unique_names_sorted : bool := {b(has_call('meta_table.py', 'to_csv', is_names_sort))}.\n"
